@@ -48,11 +48,14 @@ LEVEL_NOTE = (
 RULE = (
     "cases = one generated recipe per case key from 6 families (classical/numeric, temporal, HTN, scheduling, directed type "
     "grid = int|real x finite|infinite lower x finite|infinite upper, directed time grid = timepoint kind x interval form x "
-    "duration form x delay form) plus the bundled example problems; per case the problem, a random sequential / "
+    "duration form x delay form, incl. `global_end + k`, k != 0, in durative conditions / effects, TemporalOversubscription "
+    "intervals and scheduling base conditions / effects; every HTN case also one cell of the directed hierarchical-plan grid "
+    "= flat class x how often / where one ground action re-occurs in the decomposition) plus the bundled example problems; per case the problem, a random sequential / "
     "time-triggered plan / schedule (examples: their reference plans incl. hierarchical), synthetic and validator-produced "
     "ValidationResults and CompilerResults of real compilers are round-tripped.  evaluations = judged round trips (writer "
     "accepted). distinct_nontrivial = distinct judged objects (hash of recipe + object role) containing >= 1 half-bounded "
-    "numeric type, non-integer rational constant / delay / time, or an open interval end."
+    "numeric type, non-integer rational constant / delay / time, or an open interval end; for directed hierarchical plans: a "
+    "ground action occurring more than once."
 )
 ASSUMPTIONS = [
     "the library's == and kind are the intended notion of 'equal' (they are the statement)",
@@ -645,6 +648,8 @@ def run_case(key, tier, res):
     e = _env.fresh_env()
     nontriv = recipe_nontrivial(rec)
     pid = h(rec)
+    if fam == "htn":  # (independent of the generated recipe: own tiny problem, own environment)
+        directed_hierarchical_plan(res, key, tier, i // len(G.FAMILIES))
     with as_global(e):
         try:
             pb = G.build_problem(rec, e)
@@ -681,6 +686,24 @@ def run_case(key, tier, res):
             res.count("nonglobal_env_probe_skipped(global read failed)")
             return
         nonglobal_probe(res, wbase, rec, key)
+
+
+def directed_hierarchical_plan(res, key, tier, idx):
+    """Every HTN case additionally round-trips one cell of the directed hierarchical-plan grid (G.hgrid_recipe): a tiny HTN
+    problem, a full decomposition of its initial task network and a sequential / time-triggered flat plan in which one
+    ground action occurs once, twice or three times (adjacent, under different method instances, at different depths).
+    The oracle is the same as for every plan: the re-read HierarchicalPlan == the original (library ==)."""
+    rng = rng_for(key, "hgrid")
+    rec, feats = G.hgrid_recipe(rng, idx)
+    e = _env.fresh_env()
+    with as_global(e):
+        pb, hp, measured = G.build_hgrid(rec, e)
+        res.count("built:hgrid")
+        rt = RT(res, {"case_key": key, "tier": tier, "family": "hgrid", "recipe": rec}, [])
+        pid = h(rec)
+        rt.problem(pb, e, role="problem:hgrid", nontrivial=False, ntkey=pid)
+        rt.feats = sorted(set(feats) | set(measured))
+        rt.plan(hp, pb, "plan:hierarchical:directed", "hplan:repeated-ground-action" in measured, (pid, "hplan"))
 
 
 def nonglobal_probe(res, wbase, rec, key):
@@ -892,7 +915,7 @@ REQUIRED = {
     "judged_class:SchedulingProblem": 10,
     "judged_class:SequentialPlan": 20,
     "judged_class:TimeTriggeredPlan": 15,
-    "judged_class:HierarchicalPlan": 2,
+    "judged_class:HierarchicalPlan": 22,
     "judged_class:Schedule": 8,
     "judged_class:ValidationResult": 30,
     "judged_class:CompilerResult": 10,
@@ -924,6 +947,22 @@ REQUIRED = {
     "feature:timed-goals": 3,
     "feature:plan:rational-start": 3,
     "feature:plan:rational-duration": 3,
+    # timings `global_end + k`, k != 0, in every place that is encoded as a proto.Timing and where the model accepts them
+    "feature:gend-delay:action-condition": 2,
+    "feature:gend-delay:action-effect": 2,
+    "feature:gend-delay:tmetric": 3,
+    "feature:gend-delay:sched-base-condition": 2,
+    "feature:gend-delay:sched-base-effect": 2,
+    "feature:gend-delay:negative": 3,
+    # hierarchical plans: both flat classes, a ground action executed more than once (ids are per occurrence)
+    "judged:plan:hierarchical:directed": 20,
+    "feature:hplan:flat-sequential": 8,
+    "feature:hplan:flat-time-triggered": 8,
+    "feature:hplan:max-occurrences-of-one-ground-action:1": 3,
+    "feature:hplan:repeated-ground-action:sequential": 5,
+    "feature:hplan:repeated-ground-action:time-triggered": 5,
+    "feature:hplan:max-occurrences-of-one-ground-action:3+": 2,
+    "feature:hplan:method-depth:2": 5,
 }
 
 
